@@ -51,7 +51,8 @@ seq_t dtw_warping_paths{{ suffix }}{{ suffix2 }}(seq_t *wps,
     {%- else %}
     // DTWPruned
     idx_t sc = 0;
-    idx_t ec = 0;
+    // The border row is zero up to psi_2b: pruning cannot stop a row before that column
+    idx_t ec = settings->psi_2b;
     idx_t ec_next;
     bool smaller_found;
     {%- endif %}
@@ -144,6 +145,7 @@ seq_t dtw_warping_paths{{ suffix }}{{ suffix2 }}(seq_t *wps,
         }
         {%- else %}
         // PrunedDTW
+        if (ri <= settings->psi_1b) { sc = 0; }  // A path can still start in the (zero) border column
         if (sc <= min_ci) {} else {
             for (; ci<sc; ci++) {
                 wps[ri_width + wpsi] = {{infinity}};
@@ -214,6 +216,7 @@ seq_t dtw_warping_paths{{ suffix }}{{ suffix2 }}(seq_t *wps,
         }
         {%- else %}
         // PrunedDTW
+        if (ri <= settings->psi_1b) { sc = 0; }  // A path can still start in the (zero) border column
         if (sc <= min_ci) {} else {
             for (; ci<sc; ci++) {
                 wps[ri_width + wpsi] = {{infinity}};
@@ -284,6 +287,7 @@ seq_t dtw_warping_paths{{ suffix }}{{ suffix2 }}(seq_t *wps,
         }
         {%- else %}
         // PrunedDTW
+        if (ri <= settings->psi_1b) { sc = 0; }  // A path can still start in the (zero) border column
         if (sc <= min_ci) {} else {
             for (; ci<sc; ci++) {
                 wps[ri_width + wpsi] = {{infinity}};
@@ -364,6 +368,7 @@ seq_t dtw_warping_paths{{ suffix }}{{ suffix2 }}(seq_t *wps,
         }
         {%- else %}
         // PrunedDTW
+        if (ri <= settings->psi_1b) { sc = 0; }  // A path can still start in the (zero) border column
         if (sc <= min_ci) {} else {
             for (; ci<sc; ci++) {
                 wps[ri_width + wpsi] = {{infinity}};
